@@ -60,8 +60,7 @@ class dynstr_get_string:
     params = dict(self=Obj('_DynamicStringTable', _stream=Stream, _table_offset=U64), offset=U64)
     returns = Str
     ensures = ["result == dynstr(self._stream.B, self._table_offset + offset)"]
-    raises = {"OverflowError": "self._table_offset + offset >= 2**63"}
-    may_raise = ["UnicodeDecodeError"]
+    raises = {"OverflowError": "self._table_offset + offset >= 2**63"}       # (no UnicodeDecodeError: bytes that are not UTF-8 are replaced, as in the section view)
 
 
 @contract("elftools/elf/dynamic.py", "Dynamic.get_table_offset", props=["C09"])
